@@ -68,12 +68,15 @@ func (info ReportingMTAInfo) WriteTo(utf8 bool, w io.Writer) error {
 	h.Add("Reporting-MTA", "dns; "+reportingMTA)
 
 	if info.ReceivedFromMTA != "" {
+		// The name is whatever the client said in EHLO, nothing has
+		// validated it. The field is optional (RFC 3464 Section 2.2.3):
+		// leave it out if the name cannot be represented (e.g. a "xn--"
+		// label that is not valid Punycode) instead of failing the whole
+		// report, which would leave the failed recipients unreported.
 		receivedFromMTA, err := dns.SelectIDNA(utf8, info.ReceivedFromMTA)
-		if err != nil {
-			return fmt.Errorf("dsn: cannot convert Received-From-MTA to a suitable representation: %w", err)
+		if err == nil {
+			h.Add("Received-From-MTA", "dns; "+receivedFromMTA)
 		}
-
-		h.Add("Received-From-MTA", "dns; "+receivedFromMTA)
 	}
 
 	if info.XSender != "" {
